@@ -171,6 +171,9 @@ def _oracle(scico):
             want = G.np_eval(case, _blocks_of(case, case["x"]))
             if ev[0] == "ok" and not _same_num(ev[1], want, 64):
                 return {"what": "f(x) differs from the documented formula", "impl": ev[1], "formula": want}
+            if ev[0] == "err" and bool(obj.has_eval) and "xshape" not in case and np.isfinite(want):
+                return {"what": "has_eval is True and the documented formula has a value, but __call__ raises", "error_kind": ev[1],
+                        "formula": want, "x": case["x"]}
         except G.NotAvail:
             pass
         # prox: minimiser of the documented objective?  (flag set: it must be; flag clear: if it nevertheless is one
@@ -208,6 +211,22 @@ def _oracle(scico):
     return oracle
 
 
+def _alias_oracle(scico):
+    """property on the implementation: forming c*L (or L/c) must not change what L evaluates to (`build` evaluates the
+    operand at a fixed probe point before and after)"""
+
+    def oracle(case):
+        _, info = G.build(scico, case)
+        for a_ in info.alias:
+            if a_["L(x) before"] is not None and a_["L(x) before"] != a_["L(x) after"]:
+                return {"what": f"L(x) changed after forming {'c*L' if a_['node'] == 'mul' else 'L/c'} with c={a_['c']}",
+                        "x": a_["x"], "L(x) before": a_["L(x) before"], "L(x) after": a_["L(x) after"],
+                        "L.scale before": a_["scale_before"], "L.scale after": a_["scale_after"]}
+        return None
+
+    return oracle
+
+
 # --------------------------------------------------------------------------
 # one tree case
 
@@ -240,6 +259,22 @@ def run_tree_case(ctx, model, scico, case, oracle, stream):
     v = G.arg_to_scico(case["v"], shape, cplx)
     lam = b2f(case["lam"])
     nsz = max(8, int(sum(np.prod(s) for s in (shape if isinstance(shape, list) else [shape]))) * 4)
+
+    # ---- `c * L` / `L / c` are pure: a new loss is returned and `L` keeps its scale (the model's `Fn.mul` is a function) ----
+    if info.alias:
+        ctx.disagree("tree.alias", case, info.alias, "c*L and L/c return a new loss and leave L unchanged", oracle=_alias_oracle(scico),
+                     note="building c*L (or L/c) changed the scale of L itself")
+
+    if "loss-nonpos" in info.patterns:
+        # a non-positive factor folded into a Loss: the value c*L(x) is compared; flag and prox of such a loss are the
+        # known finding `loss-nonpositive-scale` (witness in findings()), not compared here
+        ctx.count("tree:loss with non-positive scale (value only)")
+        ie = _impl(lambda: float(obj(x)))
+        me = _model_field(r, "eval")
+        me = me if me[0] == "err" else ("ok", b2f(me[1]))
+        if ie[0] != me[0] or (ie[0] == "err" and ie[1] != me[1]) or (ie[0] == "ok" and not _same_num(ie[1], me[1], nsz)):
+            ctx.disagree("tree.eval", case, list(ie), list(me), oracle=oracle)
+        return
 
     # ---- flags ----
     impl_flags = (bool(obj.has_eval), bool(obj.has_prox))
@@ -349,6 +384,15 @@ def gen_blockcount_case(ctx):
     t = {"k": "sep", "fs": [tg.gen(0, s) for s in shape]}
     if rng.random() < 0.5:
         t = {"k": "scaled", "c": f2b(G.pos_dyadic(rng)), "f": t}
+    if len(shape) >= 2 and rng.random() < 0.3:
+        # a plain 1-D array instead of a block array: `len(x.shape) = 1 != k` -> ValueError
+        n1 = int(rng.integers(1, 5))
+        case = {"cplx": cplx, "leaves": tg.leaves, "ops": [], "t": t, "shape": [list(s) for s in shape], "xshape": [n1]}
+        case["x"] = G.random_arg_json(rng, (n1,), cplx)
+        case["v"] = G.random_arg_json(rng, (n1,), cplx)
+        case["lam"] = f2b(G.pos_dyadic(rng))
+        ctx.count("malformed:plain 1-D array to a separable functional")
+        return case
     bad = list(shape) + [(2,)] if rng.random() < 0.5 or len(shape) == 1 else list(shape)[:-1]
     case = {"cplx": cplx, "leaves": tg.leaves, "ops": [], "t": t, "shape": [list(s) for s in shape],
             "xshape": [list(s) for s in bad]}
@@ -576,6 +620,17 @@ def run_sql2_case(ctx, model, scico, case, oracle):
             L.set_scale(c_)
             L2, s2 = L, c_
         ctx.count("sql2:rescaled after use (" + how + ")")
+        if how in ("mul", "div"):
+            # c*L / L/c return a new loss; L keeps its scale and its prox
+            x1 = _impl(lambda: G.il(np.asarray(L.prox(v, lam)), cplx))
+            if L2 is L or float(L.scale) != b2f(case["scale"]) or x1[0] != "ok" or not (
+                    _same_arr(x1[1], x[1]) if exact else np.linalg.norm(np.asarray(x1[1]) - np.asarray(x[1])) <= 1e2 * tol * (1 + np.linalg.norm(x[1]))):
+                def alias_oracle(_c, L=L, how=how, c_=c_, before=x[1], after=x1):
+                    return {"what": f"forming {'c*L' if how == 'mul' else 'L/c'} with c={c_} changed L itself",
+                            "L.scale now": float(L.scale), "L.scale at construction": b2f(case["scale"]),
+                            "L.prox(v) before": np.asarray(before).tolist(),
+                            "L.prox(v) after": np.asarray(after[1]).tolist() if after[0] == "ok" else list(after), "v": case["v"], "lam": lam}
+                ctx.disagree("sql2.alias", case, float(L.scale), b2f(case["scale"]), oracle=alias_oracle)
         x2 = _impl(lambda: G.il(np.asarray(L2.prox(v, lam)), cplx))
         if x2[0] != "ok":
             ctx.disagree("sql2.rescaled.prox", case, list(x2), "ok", oracle=oracle)
@@ -702,13 +757,31 @@ FIXED_WITNESSES = {
 }
 
 
+def _loss_nonpos_witness(scico):
+    """known finding `loss-nonpositive-scale`: L = (-1.0) * Loss(y=[0,0], f=L1Norm()) advertises has_prox, and
+    L.prox([0,0], 1) = [0,0] although x -> -|x|_1 + 0.5|x|^2 is smaller at [1,1] (objective -1 < 0).
+    -> True when the witness still fails exactly like that"""
+    import scico.functional as F
+    import scico.numpy as snp
+    from scico import loss
+
+    y = snp.zeros((2,), dtype=np.float64)
+    L = (-1.0) * loss.Loss(y=y, f=F.L1Norm())
+    if not bool(L.has_prox):
+        return False
+    p = np.asarray(L.prox(y, 1.0))
+    obj = lambda z: float(L(snp.array(z))) + 0.5 * float(np.sum((z - np.asarray(y)) ** 2))  # noqa: E731
+    return bool(np.all(p == 0.0)) and obj(np.ones(2)) < obj(p) - 0.5
+
+
 def findings(ctx, model):
-    """no `known:` entry for C08 at present; the former witnesses are run as ordinary cases"""
+    """`known:` entry loss-nonpositive-scale; the witnesses of the two repaired findings are run as ordinary cases"""
     scico = common.setup_scico()
     oracle = _oracle(scico)
     for fid, case in FIXED_WITNESSES.items():
         run_tree_case(ctx, model, scico, case, oracle, "regression")
         ctx.known_finding(fid, False)
+    ctx.known_finding("loss-nonpositive-scale", _loss_nonpos_witness(scico))
 
 
 def search(ctx, model, why):
